@@ -1,12 +1,15 @@
 #!/bin/sh
-# usage: tools_allseeds.sh <tier> <seed...>   runs every claimed check, prints one line per check
+# usage: tools_allseeds.sh <tier> <seed...>   runs every claimed check from the directory of this script, prints one line per check
 TIER=$1; shift
-cd /verif
+cd "$(dirname "$0")"
+HERE=$(pwd)
+mkdir -p $HERE/out/allseeds
 for S in "$@"; do
-  for ID in $(python3 -c "import sys;sys.path.insert(0,'/verif');from checks_config import CHECKS;print(' '.join(sorted(CHECKS)))"); do
+  for ID in $(python3 -c "import sys;sys.path.insert(0,'$HERE');from checks_config import CHECKS;print(' '.join(sorted(CHECKS)))"); do
     t0=$(date +%s)
-    VERIF_SEED=$S ./check $ID --tier $TIER > /tmp/allseeds_${ID}_$S.txt 2>&1; rc=$?
+    VERIF_SEED=$S ./check $ID --tier $TIER > $HERE/out/allseeds/${ID}_${TIER}_$S.txt 2>&1; rc=$?
     t1=$(date +%s)
-    echo "seed=$S $ID rc=$rc $((t1-t0))s $(grep -c VIOLATION /tmp/allseeds_${ID}_$S.txt) violations $(grep -m1 'tier=' /tmp/allseeds_${ID}_$S.txt | cut -c1-120)"
+    echo "seed=$S $ID rc=$rc $((t1-t0))s $(grep -c VIOLATION $HERE/out/allseeds/${ID}_${TIER}_$S.txt) violations $(grep -m1 'tier=' $HERE/out/allseeds/${ID}_${TIER}_$S.txt | cut -c1-120)"
+    if [ $rc != 0 ]; then mkdir -p $HERE/out/allseeds/keep_${ID}_$S; cp -r $HERE/out/$ID/*.json $HERE/out/allseeds/keep_${ID}_$S/ 2>/dev/null; fi
   done
 done
